@@ -127,9 +127,11 @@ func NewResourcePool(factory Factory, capacity, maxCap int, idleTimeout time.Dur
 // It waits for all resources to be returned (Put).
 // After a Close, Get is not allowed.
 func (rp *ResourcePool) Close() {
+	verifStep(rp, "k1")
 	if rp.idleTimer != nil {
 		rp.idleTimer.Stop()
 	}
+	verifStep(rp, "k2")
 	if rp.capTimer != nil {
 		rp.capTimer.Stop()
 	}
@@ -148,11 +150,13 @@ func (rp *ResourcePool) IsClosed() (closed bool) {
 // closeIdleResources scans the pool for idle resources
 // 定期回收超过IdleTimeout的资源
 func (rp *ResourcePool) closeIdleResources() {
+	verifStep(rp, "i1")
 	available := int(rp.Available())
 	idleTimeout := rp.IdleTimeout()
 
 	for i := 0; i < available; i++ {
 		var wrapper resourceWrapper
+		verifStep(rp, "i2")
 		select {
 		case wrapper, _ = <-rp.resources:
 		default:
@@ -167,6 +171,7 @@ func (rp *ResourcePool) closeIdleResources() {
 			rp.active.Add(-1)
 		}
 
+		verifStep(rp, "i4")
 		rp.resources <- wrapper
 	}
 }
@@ -192,6 +197,7 @@ func (rp *ResourcePool) get(ctx context.Context) (resource Resource, err error) 
 	// Fetch
 	var wrapper resourceWrapper
 	var ok bool
+	verifStep(rp, "g1")
 	select {
 	case wrapper, ok = <-rp.resources:
 	default:
@@ -203,6 +209,7 @@ func (rp *ResourcePool) get(ctx context.Context) (resource Resource, err error) 
 			wrapper = newWrapper
 		} else {
 			startTime := time.Now()
+			verifStep(rp, "g7")
 			select {
 			case wrapper, ok = <-rp.resources:
 			case <-ctx.Done():
@@ -220,13 +227,16 @@ func (rp *ResourcePool) get(ctx context.Context) (resource Resource, err error) 
 	}
 
 	if wrapper.resource == nil {
+		verifStep(rp, "g9")
 		wrapper.resource, err = rp.createResourceWithRetry(ctx)
 		if err != nil {
+			verifStep(rp, "g10")
 			rp.resources <- resourceWrapper{}
 			return nil, err
 		}
 		rp.active.Add(1)
 	}
+	verifStep(rp, "g12")
 	rp.available.Add(-1)
 	rp.inUse.Add(1)
 	return wrapper.resource, err
@@ -310,17 +320,21 @@ func (rp *ResourcePool) Put(resource Resource) {
 	} else {
 		rp.active.Add(-1)
 	}
+	verifStep(rp, "p2")
 	select {
 	case rp.resources <- wrapper:
 	default:
 		panic(errors.New("attempt to Put into a full ResourcePool"))
 	}
+	verifStep(rp, "p3")
 	rp.inUse.Add(-1)
 	rp.available.Add(1)
 }
 
 func (rp *ResourcePool) SetCapacity(capacity int) error {
+	verifStep(rp, "c1")
 	oldcap := rp.baseCapacity.Get()
+	verifStep(rp, "c2")
 	rp.baseCapacity.CompareAndSwap(oldcap, int64(capacity))
 	if int(oldcap) < capacity {
 		rp.ScaleCapacity(capacity)
@@ -343,6 +357,7 @@ func (rp *ResourcePool) ScaleCapacity(capacity int) error {
 	// if old capacity is non-zero.
 	var oldcap int
 	for {
+		verifStep(rp, "s1")
 		oldcap = int(rp.capacity.Get())
 		if oldcap == 0 {
 			return ErrClosed
@@ -350,6 +365,7 @@ func (rp *ResourcePool) ScaleCapacity(capacity int) error {
 		if oldcap == capacity {
 			return nil
 		}
+		verifStep(rp, "s2")
 		if rp.capacity.CompareAndSwap(int64(oldcap), int64(capacity)) {
 			break
 		}
@@ -357,6 +373,7 @@ func (rp *ResourcePool) ScaleCapacity(capacity int) error {
 
 	if capacity < oldcap {
 		for i := 0; i < oldcap-capacity; i++ {
+			verifStep(rp, "s3")
 			wrapper := <-rp.resources
 			if wrapper.resource != nil {
 				wrapper.resource.Close()
@@ -366,11 +383,13 @@ func (rp *ResourcePool) ScaleCapacity(capacity int) error {
 		}
 	} else {
 		for i := 0; i < capacity-oldcap; i++ {
+			verifStep(rp, "s4")
 			rp.resources <- resourceWrapper{}
 			rp.available.Add(1)
 		}
 	}
 	if capacity == 0 {
+		verifStep(rp, "s5")
 		close(rp.resources)
 	}
 	return nil
@@ -378,8 +397,10 @@ func (rp *ResourcePool) ScaleCapacity(capacity int) error {
 
 // 扩容
 func (rp *ResourcePool) scaleOutResources() (resourceWrapper, bool) {
+	verifStep(rp, "g2")
 	rp.lock.Lock()
 	defer rp.lock.Unlock()
+	verifStep(rp, "g3")
 	if rp.capacity.Get() < rp.maxCapacity.Get() {
 		wrapper, ok := rp.AddCapacityResource()
 		rp.scaleOutTime = time.Now().Unix()
@@ -390,24 +411,32 @@ func (rp *ResourcePool) scaleOutResources() (resourceWrapper, bool) {
 
 // 扩容并获取连接, 外层加锁了，所以这边不加锁
 func (rp *ResourcePool) AddCapacityResource() (resourceWrapper, bool) {
+	verifStep(rp, "g4")
 	capacity := int(rp.capacity.Get())
 	if capacity < 0 || capacity >= int(rp.maxCapacity.Get()) {
 		return resourceWrapper{}, false
 	}
+	verifStep(rp, "g5")
 	rp.capacity.Add(1)
+	verifStep(rp, "g6")
 	rp.available.Add(1)
 	return resourceWrapper{}, true
 }
 
 // 缩容
 func (rp *ResourcePool) scaleInResources() {
+	verifStep(rp, "t1")
 	rp.lock.Lock()
 	defer rp.lock.Unlock()
+	verifStep(rp, "t2")
 	if rp.capacity.Get() > rp.baseCapacity.Get() && time.Now().Unix()-rp.scaleOutTime > 60 {
+		verifStep(rp, "t3")
 		select {
 		case rp.scaleInTodo <- 0:
 			go func() {
+				verifStep(rp, "w1")
 				rp.ScaleCapacity(int(rp.capacity.Get()) - 1)
+				verifStep(rp, "w2")
 				<-rp.scaleInTodo
 			}()
 		default:
